@@ -705,6 +705,48 @@ func (c *c02) genRandom(seed int64, base, n int) {
 	}
 }
 
+// nullLast: structs whose last member is null (with every kind of whitespace behind it) while other fields are absent, so that
+// what the write options fill in at the closing brace is longer than the document; converted at every small capacity
+func (c *c02) nullLast(base int) {
+	f := func(id int, name, req string, t int) FldJ {
+		return FldJ{ID: id, Name: name, Key: B(name), Req: req, Ty: TyJ{T: t, A: []TyJ{}}, Dflt: SubV{B: B{}}}
+	}
+	d := DescJ{Structs: map[string][]FldJ{
+		"S": {f(1, "a", "req", tI64), f(2, "b", "req", tSTR), f(3, "c", "opt", tI32), f(4, "d", "def", tI64), f(5, "e", "req", tDBL)},
+		"R": {{ID: 1, Name: "s", Key: B("s"), Req: "req", Ty: TyJ{T: tSTRUCT, N: "S", A: []TyJ{}}, Dflt: SubV{B: B{}}},
+			{ID: 2, Name: "l", Key: B("l"), Req: "def", Ty: TyJ{T: tLIST, A: []TyJ{{T: tSTRUCT, N: "S", A: []TyJ{}}}}, Dflt: SubV{B: B{}}},
+			f(3, "n", "req", tI64)}},
+		From: TyJ{T: tSTRUCT, N: "R", A: []TyJ{}}, To: TyJ{T: tSTRUCT, N: "R", A: []TyJ{}}}
+	saved := c.caps
+	defer func() { c.caps = saved }()
+	c.caps = nil
+	for cp := 0; cp <= 48; cp += 1 {
+		c.caps = append(c.caps, cp)
+	}
+	i := 0
+	for _, ws := range []string{"", " ", "\n", "\t", "\r\n", "  \n\t"} {
+		for _, doc := range []string{
+			`{"s":{"c":null` + ws + `},"n":1}`,
+			`{"s":{"a":5,"c":null` + ws + `},"n":1}`,
+			`{"n":2,"s":{"a":null` + ws + `}}`,
+			`{"s":{"a":1,"b":"x","e":2.5},"l":[{"b":"y","c":null` + ws + `},{"d":null` + ws + `}],"n":null` + ws + `}`,
+		} {
+			for _, o := range []J2TOpts{{Wreq: true}, {Wreq: true, Wdef: true}, {Wreq: true, Wopt: true}, {Wdef: true}, {}, {Wreq: true, Wdef: true, Wopt: true}} {
+				if c.prop != "c16" && !o.Wreq {
+					continue
+				}
+				if base+i >= startAt {
+					c.setDesc(d, c.popts(o))
+					jc := J2TCase{Variant: "random", TextB: B(doc), O: o}
+					c.out.Begin(base+i, jc)
+					c.run(jc)
+				}
+				i++
+			}
+		}
+	}
+}
+
 func c02Main(args map[string]string) {
 	installJ2TStepRecorder()
 	out := newOut(args["out"])
@@ -746,6 +788,7 @@ func c02Main(args map[string]string) {
 		c.genRootScalar(int64(atoi(args["seed"])), idx, n, args["bare"] != "0")
 	} else if n := atoi(args["n"]); n > 0 {
 		c.genRandom(int64(atoi(args["seed"])), idx, n)
+		c.nullLast(idx + n)
 	}
 	fmt.Printf("c02 cases=%d events=%d\n", c.cases, out.n)
 }
